@@ -31,7 +31,7 @@ var plainKeys = []string{"a", "b", "c", "d", "k", "v"}
 var Strs = []string{"", "a", "b", "ab", "ba", "abc", "aa", "abab", "é", "aé", "éa", "aéb", "日本", "a日b", "😀", "a😀b", "é", "�", " a ", "A", "Ab", "10", "2", "x,y,z", "a-b-a", "éé😀éé", "NaN", "Infinity", "-inf", "1e400", "1_0", "0x10", "null", "true"}
 
 // NumTexts is the number palette (JSON spellings).
-var NumTexts = []string{"0", "1", "-1", "2", "3", "4", "5", "10", "1.5", "-2.5", "0.1", "0.2", "0.3", "1.0", "1e0", "10e-1", "0.0", "-0", "100", "1e2", "7", "-7", "9007199254740993", "1e21", "123456789012345678901234567890", "0.5", "2.0"}
+var NumTexts = []string{"0", "1", "-1", "2", "3", "4", "5", "10", "1.5", "-2.5", "0.1", "0.2", "0.3", "1.0", "1e0", "10e-1", "0.0", "-0", "100", "1e2", "7", "-7", "9007199254740993", "1e21", "123456789012345678901234567890", "0.5", "2.0", "25E-1", "1E+1", "15E-1", "1E0", "5E-1"}
 
 func Pick[T any](t *rapid.T, label string, xs []T) T {
 	return xs[rapid.IntRange(0, len(xs)-1).Draw(t, label)]
@@ -183,7 +183,9 @@ func Doc(t *rapid.T, cfg DocCfg) jv.Val {
 // Int64s is the hostile integer palette around a length n.
 func HostileInt(t *rapid.T, n int) int64 {
 	N := int64(n)
-	pal := []int64{0, 1, -1, 2, -2, N - 1, N, N + 1, -N, -N - 1, -N + 1, 1 << 31, -(1 << 31), 1<<31 + 1, 1 << 32, 1<<62 + 1, 1<<63 - 1, -(1 << 63), -(1 << 63) + 1, 1<<63 - 2}
+	pal := []int64{0, 1, -1, 2, -2, N - 1, N, N + 1, -N, -N - 1, -N + 1, 1 << 31, -(1 << 31), 1<<31 + 1, 1 << 32, 1<<62 + 1, 1<<63 - 1, -(1 << 63), -(1 << 63) + 1, 1<<63 - 2,
+		// limits of the narrower integer kinds (an implementation may store small integers compactly)
+		127, 128, 129, -128, -129, 255, 256, 257, 256 + N, 512, -256, 32767, 32768, -32768, -32769, 65535, 65536, 65536 + N, 1<<31 - 1, 1<<32 - 1, 1<<32 + N}
 	switch rapid.IntRange(0, 3).Draw(t, "intkind") {
 	case 0:
 		return pal[rapid.IntRange(0, len(pal)-1).Draw(t, "hostile")]
@@ -457,6 +459,9 @@ func (g *G) Chain(cur jv.Val, depth int) ast.Expr {
 
 func (g *G) intNear(n int) int64 {
 	if g.Cfg.HostileInt {
+		return HostileInt(g.T, n)
+	}
+	if Chance(g.T, "boundaryint", 1, 12) {
 		return HostileInt(g.T, n)
 	}
 	return int64(rapid.IntRange(-n-2, n+2).Draw(g.T, "idx"))
